@@ -139,6 +139,14 @@ class World:
         node, script, ident = self.build(omit, upd)
         m = node.secnode.modules['m']
         eff = {pn: m.parameters[pn].omit_unchanged_within for pn in ('x', 's', 'a')}
+        # the window in force is the configured one: the module's setting (0 = never leave an update out), the general default
+        # where the module has none, or what update_unchanged says
+        want_eff = {'default': DEFAULT_OMIT if omit is None else omit, 'always': 0, 'never': eff['x'] if eff['x'] >= 1e8 else 'huge'}.get(upd, upd)
+        r.count('omit_windows_checked')
+        if any(abs(v - want_eff) > 1e-9 if isinstance(want_eff, (int, float)) else True for v in eff.values()):
+            r.violation('C05/configured-omit-window-not-applied', f'omit_unchanged_within={omit!r} on the module (general default {DEFAULT_OMIT}), update_unchanged={upd!r}: '
+                        f'the parameters use {eff}', {'omit': omit, 'update_unchanged': upd, 'kind': 'omit-window'})
+            return None
         disp = node.dispatcher
         conns = {}
         oplog = []        # dict per op
@@ -683,6 +691,8 @@ def run_shard(shard):
             break
         prefix = stack.pop()
         s = w.run_history(None, 2, ('prefix', prefix), 0, hist=pbhist)
+        if s is None:
+            break
         runs += 1
         if len(prefix) < 2 and s.status == 'ok':
             first = prefix[-1][0] + 1 if prefix else 0
